@@ -1,0 +1,15 @@
+package parser
+
+import "math/big"
+
+// parseBigIntegerLiteral returns the Number value of an integer literal too large for an
+// int64: the exact mathematical value of the digits in the given base, rounded once to the
+// nearest float64 (ES5 7.8.3).
+func parseBigIntegerLiteral(digits string, base int) (float64, bool) {
+	exact, ok := new(big.Int).SetString(digits, base)
+	if !ok {
+		return 0, false
+	}
+	rounded, _ := new(big.Float).SetInt(exact).Float64()
+	return rounded, true
+}
